@@ -10,7 +10,7 @@ TECH = {
  "C01": "bounded contract check of the real sum_product against an independent evaluation of the definition (stand-in; not proved)",
  "C02": "contract-based VCs from the real AST (pyvc/z3) for fixed_point/newton control flow + scalar semiring proofs (semvc/z3 NRA) + bounded stand-in for values",
  "C03": "bounded contract check of gradients against exact derivatives / central differences (stand-in; not proved)",
- "C04": "bounded contract check of viterbi against brute force (stand-in; not proved)",
+ "C04": "scalar proof that ViterbiSemiring.star is the least solution (semvc/z3) + bounded contract check of viterbi against brute force (stand-in; not proved)",
  "C05": "contract-based VCs (pyvc/z3) for method forwarding and fresh names + bounded stand-in (inlining isomorphism, sum-product equality)",
  "C06": "scalar-semantics proof obligations on the real PatternedTensor method ASTs (semvc/z3 NRA) + bounded stand-in for denotation + run-time representation invariant (hook)",
  "C07": "scalar-semantics proof obligations for the einsum callbacks (semvc/z3) + bounded stand-in against nested-loop einsum",
@@ -81,4 +81,4 @@ def main(claimed):
 
 claimed_reason = {}
 if __name__ == "__main__":
-    main(set(sys.argv[1:]))
+    main(set(sys.argv[1:]) or set(TECH))   # no arguments: every property is claimed
